@@ -449,7 +449,8 @@ def _prove(rep, label, goal, cons, sample=None, **kw):
     cons = list(cons)
     sl = slice_for(goal, cons)
     if len(sl) < len(cons):
-        v = refute(goal, sl, min(kw.get("timeout_ms", 30000), 15000))
+        t = kw.get("timeout_ms", 30000)
+        v = refute(goal, sl, min(t, 15000) if t <= 60000 else t // 2)
         if v.status == "unsat":
             rep._item(label, "prove", v, {"sliced": f"{len(sl)} of {len(cons)} constraints"})
             if sample is not None:
@@ -504,7 +505,10 @@ def o_mm(rep, kind, N, part=0, parts=1):
         wf = f.model_weights
         goals = [z3.And(*[_tr(x) >= 0 for x in wf]), _approx(z3.Sum([_tr(x) for x in wf]), z3.RealVal(1)), z3.BoolVal(len(f.models) >= 1),
                  z3.BoolVal(len(wf) == len(f.models) == len(f.model_likelihoods) == len(f.mode_probabilities) == f.num_models)]
-        _prove(rep, f"{tag}-invariant", z3.And(*goals), cons, timeout_ms=big, inputs=inputs, replay=replay_smm if kind == "smm" else replay_gpb1,
+        # proof hint (cut rule, itself proved first by Report.prove): the posterior seen by the first stacking step is a distribution
+        p0 = [_tr(x) for x in snaps[0]["w"]]
+        post_is_dist = ("posterior-is-a-distribution", z3.And(_approx(z3.Sum(p0), z3.RealVal(1)), *[x >= 0 for x in p0]))
+        _prove(rep, f"{tag}-invariant", z3.And(*goals), cons, timeout_ms=big, lemmas=[post_is_dist], inputs=inputs, replay=replay_smm if kind == "smm" else replay_gpb1,
                   sample="after update+prune: weights >= 0, sum to one, >= 1 model, all per-model arrays of equal length")
         # (2) Bayes' rule at the first compile (before pruning): posterior = prior * Gaussian likelihood of the model's own
         #     innovation (its own S_i), renormalised.  `like` is the harness's own formula (built before the code ran).
@@ -544,9 +548,11 @@ def o_mm(rep, kind, N, part=0, parts=1):
         inputs_bayes = tagged("bayes")
 
         exact = z3.And(z3.BoolVal(ok_len), z3.If(tiny, reset, bayes))
-        lv = refute(exact, slice_for(exact, cons), 15000)
+        # short budgets once a violation is on record; long ones for N=4 (measured: the same identity takes 0.04 s on most paths, 6..25 s on a few)
+        t_sliced, t_full = (3000, 3000) if rep.violations else ((15000, 30000) if N <= 3 else (60000, 120000))
+        lv = refute(exact, slice_for(exact, cons), t_sliced)
         if lv.status != "unsat":
-            lv = refute(exact, cons, 30000)
+            lv = refute(exact, cons, t_full)
         if lv.status == "unsat":
             # the exact identity (with the code's own 1e-15 underflow threshold) is a theorem on this path: it implies `goal`
             rep._item(f"{tag}-bayes", "prove", lv)
@@ -557,12 +563,12 @@ def o_mm(rep, kind, N, part=0, parts=1):
             # factors, determinants and priors well inside the double range: nothing near the underflow threshold), then anywhere
             typical = [z3.And(es[i].t >= rv(1e-3), es[i].t <= 1, ds[i].t >= rv(1e-2), ds[i].t <= 100, prior[i].t >= rv(1e-2)) for i in range(N)]
             # once a violation is on record the remaining paths get a short budget; a timed-out (not refuted) exact identity gets a long one
-            budget = 3000 if rep.violations else (10000 if lv.status == "sat" else 30000)
+            budget = 3000 if rep.violations else (10000 if lv.status == "sat" else big)
             if rep.prove(f"{tag}-bayes-typical", goal, list(cons) + typical, timeout_ms=budget, inputs=inputs_bayes, replay=replay, sample=what + " [everyday magnitudes]") is not False:
                 rep.prove(f"{tag}-bayes", goal, cons, timeout_ms=budget, inputs=inputs_bayes, replay=replay, sample=what)
         if kind != "smm":
             mu1 = s0["mu"]
-            _prove(rep, f"{tag}-mode-prob", z3.And(_approx(z3.Sum([_tr(x) for x in mu1]), z3.RealVal(1)), *[_tr(x) >= 0 for x in mu1]), cons, timeout_ms=big, inputs=tagged("mode-prob"), replay=replay, sample="GPB1: mixed mode probabilities stay a distribution")
+            _prove(rep, f"{tag}-mode-prob", z3.And(_approx(z3.Sum([_tr(x) for x in mu1]), z3.RealVal(1)), *[_tr(x) >= 0 for x in mu1]), cons, timeout_ms=big, lemmas=[post_is_dist], inputs=tagged("mode-prob"), replay=replay, sample="GPB1: mixed mode probabilities stay a distribution")
         # (3) moment matching at every compile
         for k, s in enumerate(snaps):
             ms, w = s["models"], None
